@@ -83,7 +83,7 @@ DEFAULTS: Dict[str, Any] = dict(
     head=True,
     read_modes=[6, 1, 1],  # app reads: all, none, one message
     respond_when=[6, 2],  # after reading, before reading
-    statuses=[200, 200, 201, 204, 304, 404, 500, 599],
+    statuses=[200, 200, 201, 202, 203, 204, 205, 206, 226, 300, 301, 304, 400, 404, 418, 500, 503, 599],
     resp_headers=True,
     chunk_modes=True,
     big_resp=False,
